@@ -67,7 +67,7 @@ fn run_engine(e: Engine, vals: &[SigVal], with_sha: bool) -> ChildOutcome {
     }
 }
 
-fn judge(v: &SigVal, o: &ProbeOut) -> Result<(), String> {
+pub fn judge(v: &SigVal, o: &ProbeOut) -> Result<(), String> {
     let want = v.reference();
     let show = |b: &[u8]| format!("{:02x?}{}", &b[..b.len().min(24)], if b.len() > 24 { format!(".. ({} bytes)", b.len()) } else { String::new() });
     if o.sig != want {
@@ -75,6 +75,9 @@ fn judge(v: &SigVal, o: &ProbeOut) -> Result<(), String> {
     }
     if o.sig_again != want {
         return Err(format!("{} value of length {}: a second get_sig() returned {} instead of {}", v.type_name(), v.len(), show(&o.sig_again), show(&want)));
+    }
+    if o.sig_rebuilt != want {
+        return Err(format!("{} value of length {}: an equal value with spare capacity / stale elements behind its length gives {} instead of {}", v.type_name(), v.len(), show(&o.sig_rebuilt), show(&want)));
     }
     if o.sha_fwd != o.sha_rev {
         return Err(format!("{}: ProbMinHash3aSha over keys of this type gives different signatures for two insertion orders", v.type_name()));
@@ -259,10 +262,6 @@ pub fn replay(ctx: &Ctx, sub: &str, case: &Value) -> Result<(), String> {
         }
     }
     Ok(())
-}
-
-pub fn fuzz_strategy() -> impl Strategy<Value = SigVal> {
-    strategy(4096)
 }
 
 /// in-process evaluation (used by the fuzz target, which is itself built with AddressSanitizer)
